@@ -166,14 +166,16 @@ ParseRequestLine(line) ==
        ELSE
         LET vmaj == DigitVal(ver[6])
             vmin == DigitVal(ver[8])
-            sCase == IF um # method THEN <<Dev("MethodCaseFolded")>> ELSE <<>>       \* method is case-sensitive (9110 9.1); parse_message upper-cases
+            \* method is case-sensitive (9110 9.1); the pure-Python parser upper-cases it on purpose
+            \* (tests/test_http_parser.py::test_py_parser_normalises_method_to_uppercase) - permitted alternative
+            sCase == IF um # method THEN <<Alt("MethodCaseFolded")>> ELSE <<>>
             sVer == IF ~(vmaj = 1 /\ vmin \in {0, 1}) THEN <<Alt("VersionOther")>> ELSE <<>>   \* THREAT_MODEL 5.1 #1.5
             sObs == IF AnyB(target, IsObsText) THEN <<Alt("TargetObsText")>> ELSE <<>>
             \* request-target bytes: VCHAR only (RFC 9112 3.2 / RFC 3986); CTL, DEL (SP cannot occur)
             sCtl == IF AnyB(target, LAMBDA b : IsCtl(b)) THEN <<Dev("TargetCTLAccepted")>> ELSE <<>>
             form == CASE sCtl # <<>> /\ target[1] # 47 /\ um # M_CONNECT -> <<>>    \* strict verdict is reject anyway; form left open
                       [] um = M_CONNECT ->
-                            IF AuthorityFormOK(target) THEN <<>> ELSE <<Dev("ConnectTargetAccepted")>>
+                            IF AuthorityFormOK(target) THEN <<>> ELSE <<Alt("ConnectTargetUnchecked")>>
                       [] target[1] = 47 -> <<>>                                             \* origin-form 3.2.1
                       [] target = <<42>> /\ um = M_OPTIONS -> <<>>                          \* asterisk-form 3.2.4
                       [] OTHER ->
@@ -293,7 +295,9 @@ DecideFraming(s, cfg) ==
         emptyBody == IF isReq THEN um = M_HEAD
                      ELSE (m.code >= 100 /\ m.code < 200) \/ m.code \in {204, 304} \/ ~cfg.withBody
         softTE10 == IF isReq /\ hasTE /\ v10 THEN <<Dev("TEonHTTP10Accepted")>> ELSE <<>>       \* 6.1: framing faulty
-        softTEx == IF isReq /\ hasTE /\ Len(teParts) > 1 THEN <<Dev("TEUnknownCodingAccepted")>> ELSE <<>>
+        \* "gzip, chunked": codings before a final chunked are legal syntax (6.1); the parser only requires
+        \* chunked to be last (THREAT_MODEL 5.1 #1.8, same as llhttp) - permitted alternative
+        softTEx == IF isReq /\ hasTE /\ Len(teParts) > 1 THEN <<Alt("TECodingsBeforeChunked")>> ELSE <<>>
         softHead == IF isReq /\ um = M_HEAD /\ ((hasCL /\ clen > 0) \/ hasTE)
                     THEN <<Dev("HeadRequestBodySkipped")>> ELSE <<>>  \* framing does not depend on the method, 6.3
         softConn == IF isReq /\ um = M_CONNECT /\ ((hasCL /\ clen > 0) \/ hasTE) THEN <<Alt("ConnectWithBody")>> ELSE <<>>
@@ -425,6 +429,9 @@ StepField(s, q, n, cfg0, trailer) ==
               IN IF Len(line) = 0 THEN
                      IF trailer THEN FinishMsg(s0) ELSE DecideFraming(s0, cfg)
                  ELSE IF Len(line) > cfg.maxField THEN RejectOver(s, IF trailer THEN "TrailerTooLong" ELSE "FieldTooLong")
+                 \* a CR in front of the first trailer line is no field name byte for anybody; own reason because
+                 \* the lax parser drops one CR after the last-chunk line only if both arrive in the same read
+                 ELSE IF trailer /\ lax /\ Len(flds) = 0 /\ line[1] = CR THEN Reject(s, "TrailerLeadingCR")
                  ELSE IF IsWS(line[1]) THEN
                      \* obs-fold (5.2): a server MUST reject; the lax client joins it to the previous value
                      IF ~lax \/ Len(flds) = 0 THEN Reject(s, "ObsFold")
